@@ -27,7 +27,7 @@ ASSUMPTIONS = [
 ]
 COMPONENTS = {"real": ["pyxel exposure/readout", "illumination, stripe_pattern, load_image, load_charge, dark_current, simple_conversion, simple_collection", "scratch filesystem for input files"], "stub": []}
 BUDGET = {"quick": {"n": 480, "wall": 100, "determinism": 4}, "thorough": {"n": 80000, "wall": 1500, "determinism": 12}}
-REQUIRED_REACH = ["type:CCD", "type:CMOS", "type:MKID", "type:APD", "mode:nd", "mode:destructive", "model:illumination", "model:stripe_pattern", "model:load_image", "model:load_charge", "model:dark_current", "partition:short-first", "partition:long-last", "partition:uniform", "partition:random", "nonzero_start", "twelve_readouts"]
+REQUIRED_REACH = ["type:CCD", "type:CMOS", "type:MKID", "type:APD", "mode:nd", "mode:destructive", "model:illumination", "model:stripe_pattern", "model:load_image", "model:load_charge", "model:dark_current", "partition:short-first", "partition:long-last", "partition:uniform", "partition:random", "partitions_as_swept_readout_times", "nonzero_start", "twelve_readouts"]
 
 
 def gen_partition(rng, start, end, n, kind):
@@ -90,6 +90,8 @@ def generate(rng, tier):
         "p2": {"times": gen_partition(rng, start, end, n2, k2), "kind": k2},
         "destructive": rng.random() < 0.35, "scale": rng.choice([0.5, 2.0, 3.0]),
         "img_salt": rng.randint(1, 50),
+        # the two partitions additionally requested as the values of a swept 'observation.readout.times' (sequentially executed observation)
+        "via_sweep": rng.random() < 0.4,
     }
 
 
@@ -125,6 +127,35 @@ def run(scn, times, scratch, destructive):
     return np.asarray(tree["/bucket/pixel"].values, dtype=float)
 
 
+def run_sweep(scn, partitions, scratch):
+    """The partitions as values of the swept parameter 'observation.readout.times' of one sequentially executed, non-destructive
+    observation; returns the final pixel frame of each run."""
+    import pyxel
+    from pyxel.exposure import Readout
+    from pyxel.observation import Observation, ParameterValues
+    from pyxel.pipelines import DetectionPipeline, ModelFunction
+
+    det = world.build_detector(scn["detector"])
+    groups: dict[str, list] = {}
+    for g, name, args in scn["models"]:
+        a = {k: (os.path.join(scratch, "image.npy") if v == "@image" else os.path.join(scratch, "charge.npy") if v == "@charge" else copy.deepcopy(v)) for k, v in args.items()}
+        groups.setdefault(g, []).append(ModelFunction(func=f"pyxel.models.{g}.{name}", name=name, arguments=a))
+    pipe = DetectionPipeline(**groups)
+    mode = Observation(
+        parameters=[ParameterValues(key="observation.readout.times", values=[list(p) for p in partitions])],
+        readout=Readout(times=[scn["end"]], start_time=scn["start"], non_destructive=True),
+        with_dask=False,
+    )
+    tree = pyxel.run_mode(mode=mode, detector=det, pipeline=pipe, with_inherited_coords=True)
+    pixel = tree["/bucket/pixel"].compute()
+    dim = next(d for d in pixel.dims if d not in ("time", "y", "x"))
+    out = []
+    for i in range(len(partitions)):
+        frames = pixel.isel({dim: i}).sortby("time")
+        out.append(np.asarray(frames.isel(time=-1).values, dtype=float))
+    return out
+
+
 def execute(scn):
     world.reset_process_state()
     viol, stats = [], {}
@@ -155,6 +186,11 @@ def execute(scn):
                     i = np.unravel_index(np.argmax(np.abs(fa - fb)), fa.shape)
                     viol.append({"clause": "C17.partition-invariant", "signature": f"C17.partition-invariant@{feat}", "detail": {"pixel": [int(x) for x in i], "partition_1": scn["p1"], "partition_2": scn["p2"], "final_1": float(fa[i]), "final_2": float(fb[i]), "start": scn["start"]}})
                 digest = hashlib.sha256(np.round(fa, 6).tobytes()).hexdigest()[:16]
+                if scn.get("via_sweep") and len(scn["p1"]["times"]) != len(scn["p2"]["times"]):
+                    stats["partitions_as_swept_readout_times"] = 1
+                    for which, got, want in zip(("p1", "p2"), run_sweep(scn, [scn["p1"]["times"], scn["p2"]["times"]], scratch), (fa, fb)):
+                        if got.shape != want.shape or not np.allclose(got, want, rtol=1e-9, atol=1e-12):
+                            viol.append({"clause": "C17.partition-invariant", "signature": f"C17.partition-invariant@swept-readout-times+{feat}", "detail": {"partition": scn[which], "final_pixel0_exposure": float(want.ravel()[0]), "final_pixel0_observation": float(got.ravel()[0]) if got.size else None}})
             else:
                 stats["mode:destructive"] = 1
                 k = scn["scale"]
